@@ -143,7 +143,7 @@ def trailing_shape(rng, max_axes=3, allow_zero=False):
 
 def axis_f(rng, n, kind=None):
     """strictly increasing list of n finite f64 with finite span and finite (n-1)/span"""
-    kind = kind or rng.choice(["unit", "uniform", "geometric", "log", "ulps", "mixed", "random", "evenish", "even", "nearly_even", "indexlike"])
+    kind = kind or rng.choice(["unit", "uniform", "geometric", "log", "ulps", "mixed", "random", "evenish", "even", "nearly_even", "indexlike", "tail"])
     if kind == "unit":
         return [float(i) for i in range(n)]
     if kind == "even":
@@ -153,6 +153,16 @@ def axis_f(rng, n, kind=None):
         if n >= 3 and rng.random() < 0.5:
             a = -rng.randint(1, n - 2) * h      # an interior knot is exactly 0: its neighbouring floats are subnormal
         return [a + i * h for i in range(n)]
+    if kind == "tail" and n >= 3:
+        # knots that crowd towards the last one by many orders of magnitude (-1000, -100, .., -1e-20, 0): for queries in the tiny intervals
+        # near the end `x - first` rounds to the full span and the O(1) guess lands on the last knot (seed C01-r9m1: "a guess on the last
+        # knot can only mean the last interval")
+        end = rng.choice([0.0, 0.0, 1.0, -3.0])
+        gaps = sorted((10.0 ** rng.uniform(-22, 3) for _ in range(n - 1)), reverse=True)
+        gaps[0] = max(gaps[0], 100.0)
+        xs = [end - g for g in gaps] + [end]
+        if all(p < q for p, q in zip(xs, xs[1:])):
+            return xs
     if kind == "nearly_even" and n >= 3:
         a = rng.randint(-64, 64) / 4.0
         h = rng.randint(1, 32) / 8.0
